@@ -36,7 +36,7 @@ def main():
         "-coverpkg=verifharness/cmd/vh," + ",".join(MOD + p for p in ("tlb", "abi", "wallet")), "-o", vh, "./cmd/vh"], cwd=HARN, env=ENV)
     gen = os.path.join(work, "gen")
     sh([vh, "gen", "-prop", "C08", "-seed", "1", "-tier", "quick", "-out", gen], env=dict(ENV, GOCOVERDIR=os.path.join(work, "junk0")))
-    lines = [l for l in open(os.path.join(gen, "ops.txt")) if l.startswith("go.tlb.flags ")]
+    lines = [l for l in open(os.path.join(gen, "ops.txt")) if l.startswith("go.tlb.flags ") or l.startswith("go.tlb.flagsreal ")]
     lines.append("go.tlb.covseeds\n")
     out = os.path.join(work, "cov")
     os.makedirs(out)
@@ -77,7 +77,7 @@ def main():
                 for (f, sl, sc, el, ec), c in sorted(mine):
                     text = "\n".join(src[sl - 1:el])
                     body = "\n".join(x.strip() for x in src[sl - 1:el]).strip()
-                    only_err_return = bool(re.fullmatch(r"(?:[^\n]*\{\n)?return\b[^\n]*(?:err|Errorf|errors\.New)[^\n]*(?:\n\})?", body)) and el - sl <= 2
+                    only_err_return = bool(re.fullmatch(r"(?:[^\n]*\{\n)?return\b[^\n]*(?:[eE]rr|Errorf|errors\.New)[^\n]*(?:\n\})?", body)) and el - sl <= 2
                     if only_err_return:
                         continue
                     live += 1
